@@ -18,6 +18,8 @@ namespace rkcommon {
     template <typename T>
     __forceinline T *alignedMalloc(size_t nElements, size_t align = 64)
     {
+      if (nElements > size_t(-1) / sizeof(T))
+        return nullptr;  // nElements * sizeof(T) would wrap around
       return (T *)alignedMalloc(nElements * sizeof(T), align);
     }
 
